@@ -22,6 +22,7 @@ From FT Require Proofs.EditSessions Proofs.EditSessionsFull Proofs.EditSessionsA
 From FT Require Gen.UserActions_gen Proofs.UserActionsTie.
 From FT Require Model.Toggle Proofs.EditInit.
 From FT Require Proofs.CoreTieBundle.
+From FT Require Model.EditCtor Proofs.EditCtor.
 Import ListNotations.
 Open Scope Z_scope.
 
@@ -267,6 +268,47 @@ Proof. exact EditInit.construct_session_WF. Qed.
 Theorem C06_core_is_generated : FT.Proofs.CoreTieBundle.core_tie_statement.
 Proof. exact FT.Proofs.CoreTieBundle.core_tie. Qed.
 
+(* ---- ... and for a graph that ARRIVES with managed features of its own (an imported or reloaded solution):
+        the constructor as the code runs it (Model/EditCtor.v: construct_any, following Tracks.__init__,
+        _check_existing_feature, _setup_core_computed_features and TrackAnnotator.__init__ /
+        _get_max_id_and_map) fills the id lookups by a scan of whatever ids the nodes carry, then ACTIVATES
+        every core feature the first node carries (values taken at face value) and COMPUTES every other one.
+        If the features detected on the first node are valid on all nodes (supplied_ok: supplied track ids label
+        exactly the unbranched segments, supplied lineage ids exactly the components, supplied positions /
+        areas are those of the current masks; nothing is assumed about a feature the first node lacks), the
+        constructed state is well formed - whatever combination of supplied and computed features - and so
+        is every state of every session over the whole interface from it. Proofs/EditCtorExample.v: a
+        solution with non-contiguous supplied track ids and a stale partial lineage id (accepted), and one
+        whose supplied ids are invalid (raw_ok holds, supplied_ok fails, the constructed state is NOT well
+        formed: the hypothesis is needed).  Tie: the constructor correspondence of every run compares
+        construct_any with SolutionTracks.__init__ on every generated raw solution (harness/ctor.py). ---- *)
+Theorem C06_sessions_from_any_construction : forall r0 posk ctrk clin extra ops,
+  EditInit.raw_ok r0 posk ctrk clin ->
+  EditCtor.supplied_ok r0 ->
+  (forall k, In k extra -> In k (Toggle.available r0)) ->
+  EditSessionsAll.pre_along_all (FT.Model.EditCtor.construct_any r0 ctrk clin extra) ops ->
+  forall pre post, ops = pre ++ post -> WF (run (FT.Model.EditCtor.construct_any r0 ctrk clin extra) pre).
+Proof. exact EditCtor.construct_any_session_WF. Qed.
+
+(* ---- TrackAnnotator._get_max_id_and_map, on its own: for ANY attributes (ids missing on some nodes, values
+        that are not integers are skipped) the lookup built by the scan is exactly the group-by of the id
+        attribute - every list non-empty, duplicate free, holding exactly the nodes with that id - and the
+        maximum bounds every id from above (so that ids issued later are fresh). ---- *)
+Theorem C06_scan_is_group_by : forall st key, NoDup (node_ids st) ->
+  book_ok st (snd (FT.Model.EditCtor.scan_ids st key)) (fun n => zattr st n key) (fst (FT.Model.EditCtor.scan_ids st key)).
+Proof. exact EditCtor.scan_ids_book_ok. Qed.
+
+(* ---- supplied ids are KEPT: a feature detected on the first node is neither renumbered nor recomputed, and
+        its lookup and maximum are those of the scan of the caller's graph. ---- *)
+Theorem C06_supplied_ids_kept : forall r0 posk ctrk clin, EditInit.raw_ok r0 posk ctrk clin -> EditCtor.supplied_ok r0 ->
+  let st1 := FT.Model.EditCtor.construct_any r0 ctrk clin [] in
+  (forall n k, k <> KPos -> k <> KArea -> k <> KTrack -> k <> KLin -> attr st1 n k = attr r0 n k) /\
+  (FT.Model.EditCtor.first_has r0 KTrack = true -> (forall n, attr st1 n KTrack = attr r0 n KTrack) /\
+     trk_book (bk st1) = snd (FT.Model.EditCtor.scan_ids r0 KTrack) /\ max_trk (bk st1) = fst (FT.Model.EditCtor.scan_ids r0 KTrack)) /\
+  (FT.Model.EditCtor.first_has r0 KLin = true -> (forall n, attr st1 n KLin = attr r0 n KLin) /\
+     lin_book (bk st1) = snd (FT.Model.EditCtor.scan_ids r0 KLin) /\ max_lin (bk st1) = fst (FT.Model.EditCtor.scan_ids r0 KLin)).
+Proof. exact EditCtor.construct_any_supplied_books. Qed.
+
 Example C06_example_invariants : cfg_ok ex_state /\ rp_disjoint ex_state /\ W_book ex_state.
 Proof.
   split; [unfold cfg_ok; cbn; intuition|]. split; [intros k _ []|].
@@ -325,3 +367,6 @@ Print Assumptions C06_run_paint_calls.
 Print Assumptions C06_user_actions_are_generated.
 Print Assumptions C06_sessions_from_construction.
 Print Assumptions C06_core_is_generated.
+Print Assumptions C06_sessions_from_any_construction.
+Print Assumptions C06_scan_is_group_by.
+Print Assumptions C06_supplied_ids_kept.
